@@ -209,20 +209,31 @@ func VH_C16_loop(remove int) {
 	dB := int64(vsymInt("dB", 1, 900)) * 1000000
 	vassert(c.Add(ctx, "A", "+"+strconv.FormatInt(dA, 10)+"ns", mk("A")) == nil, "add-succeeds")
 	vassert(c.Add(ctx, "B", "+"+strconv.FormatInt(dB, 10)+"ns", mk("B")) == nil, "add-succeeds")
+	// the due instants as the cron recorded them
+	due := map[string]int64{}
+	c.Lock()
+	for _, j := range c.Timeline {
+		due[j.Id] = j.Next.UnixNano()
+	}
+	c.Unlock()
+	vassert(due["A"] >= base+dA && due["B"] >= base+dB, "due-time-is-now-plus-delay")
 	if remove == 1 {
 		found, err := c.Rem(ctx, "A")
 		vassert(err == nil && found, "rem-finds-pending-job")
 	}
 	vquiesce()
 	nA, nB := 0, 0
+	const margin = int64(10 * 1000000)
 	for _, f := range fired {
 		if f.id == "A" {
 			nA++
-			vassert(f.at >= base+dA, "fires-no-earlier-than-due")
 		} else {
 			nB++
-			vassert(f.at >= base+dB, "fires-no-earlier-than-due")
 		}
+		// first with a margin (such a witness replays natively whatever the scheduling
+		// latency), then exactly
+		vassert(f.at+margin >= due[f.id], "fires-no-earlier-than-due")
+		vassert(f.at >= due[f.id], "fires-no-earlier-than-due")
 	}
 	if remove == 1 {
 		vassert(nA == 0, "removed-job-never-fires")
